@@ -374,11 +374,22 @@ def c11(run, replay=None):
                       ("#\n# Usage:\n#   prog [--help]\n#   prog go\n#\n# Options:\n#   --help   Show this.\n#\n# Examples:\n#   prog go   # runs\n", "- debug:\n    msg: \"<<ran>>\"\n")]:
         dcases.append((["--help"], "help", dict(files={"main.rh": dict(raw="#!/usr/bin/env rash\n" + blk + tail)}, argv=["--", "--help"],
                                                 desc=dict(usage=blk, argv=["--help"], expect="help"))))
+    # K44: the help option given where the other (required) arguments of every pattern are missing
+    docD = "#\n# Usage:\n#   prog [--help] <a> <b>\n#\n"
+    docE = "#\n# Usage:\n#   prog go <x>\n#   prog -h | --help\n#\n# Options:\n#   -h, --help  Show this.\n#\n"
+    for doc, argv, expect in [(docD, ["--help"], "help-k44"), (docD, ["--help", "v", "w"], "help"), (docE, ["go", "--help"], "help-k44"), (docE, ["--help"], "help"), (docE, ["-h"], "help")]:
+        dcases.append((argv, expect, dict(files={"main.rh": dict(raw="#!/usr/bin/env rash\n" + doc + body)}, argv=["--"] + argv, desc=dict(usage=doc, argv=argv, expect=expect))))
     outs = E.run_impls([c for _, _, c in dcases])
     helps = C.run_oracle([sx(["helpdoc", hx(c["files"]["main.rh"]["raw"])]) for _, _, c in dcases])
     nd = 0
     for (argv, expect, c), o, hm in zip(dcases, outs, helps):
         nd += 1
+        if expect == "help-k44":
+            ran = bool(o["log"]) or "<<ran>>" in o["stdout"]
+            if not ran and o["rc"] != 0:
+                run.known("K44-help-needs-a-matching-pattern", "")
+                continue
+            expect = "help"
         if expect == "help":
             want = unhx(hm).decode("utf-8", "replace") + "\n"
             if o["stdout"] != want:
